@@ -146,6 +146,15 @@ PROPS["C02"] = {
     "assumptions": ["the occurrence is given as ghost parameters (universally quantified)"],
 }
 
+PROPS["C07"] = {
+    "level": "other",
+    "text": "Proved: the window arithmetic of KmerFinder.kmers_present (the searched window equals Python's sequence[start:stop], and "
+            "lies inside the string, so shift_and_multiple_is_present never reads out of bounds).  Bounded: the headline clause "
+            "(match_to with and without the prefilter agree) on seeded random adapter/read configurations for all eight adapter types.",
+    "note": "The relation between the k-mer sets and the aligner (pigeonhole argument) is not proved; known losses are listed as findings.",
+    "assumptions": ["bit-parallel search treated as an uninterpreted predicate of its window"],
+}
+
 _PENDING = "check not built yet in this revision (see DESIGN.md section 7 for the build order)"
 NOT_APPLICABLE = {
     "C12": "quantifies over fault sequences, crash points and schedules and contains a liveness clause; malformed-input detection "
